@@ -1660,7 +1660,20 @@ def ref_traces(repo, mod):
     methods = []
     uncovered = []
     n_plain = 0
+    mod['uncovered_hash'] = {}
     for f in funcs:
+        # text of the function with comments removed and blanks normalised: pinned for the
+        # functions the reader cannot follow (a change there needs a new review by hand)
+        import hashlib as _hl
+        norm = '\n'.join(f'{ll.indent}:' + ' '.join(ll.text.split()) for ll in f.body)
+        mod['uncovered_hash'][f.qual] = _hl.sha256(norm.encode()).hexdigest()[:16]
+        # tags of CUDD's computed table used by this function (lookups, inserts)
+        import re as _re
+        body_txt = ' '.join(ll.text for ll in f.body)
+        lk = _re.findall(r'cuddCacheLookup\w*\(\s*\w+\s*,\s*([A-Za-z_]\w*)', body_txt)
+        ins = _re.findall(r'cuddCacheInsert\w*\(\s*\w+\s*,\s*([A-Za-z_]\w*)', body_txt)
+        if lk or ins:
+            mod.setdefault('cache_tags', []).append((f.qual, lk, ins))
         if f.name.startswith('_test_'):
             uncovered.append((f.qual, f.lineno, 'test helper (not part of the wrapper API)'))
             continue
@@ -1735,6 +1748,10 @@ def extract_all(repo):
         ms, unc, n = ref_traces(repo, mod)
         data['traces'][tag] = ms
         data['uncovered'][tag] = unc
+        data.setdefault('cache_tags', {})[tag] = mod.get('cache_tags', [])
+        data.setdefault('uncovered_hash', {})[tag] = [
+            (name, mod['uncovered_hash'].get(name, '')) for name, _line, why in unc
+            if not why.startswith('test helper')]
         data['irrelevant'][tag] = n
         data['nfuncs'][tag] = len(mod['funcs'])
         data['local'][tag] = sorted(mod['local'])
@@ -1787,6 +1804,21 @@ def lean_ctables(data):
         for name, line, why in us:
             unc.append('⟨.' + tag + ', ' + _ls(name) + f', {line}, ' + _ls(why) + '⟩')
     L.append('def cUncovered : List CUncovered := [\n  ' + ',\n  '.join(unc) + ']')
+    L.append('/-- text fingerprints (comments removed, blanks normalised) of the functions that are not '
+             'followed: compared with the fingerprints recorded when they were reviewed by hand -/')
+    uh = []
+    for tag, hs in data.get('uncovered_hash', {}).items():
+        for name, hx in hs:
+            uh.append(f'(.{tag}, {_ls(name)}, {_ls(hx)})')
+    L.append('def cUncoveredText : List (Backend × String × String) := [\n  ' + ',\n  '.join(uh) + ']')
+    L.append('/-- functions that use CUDD\'s computed table: (back end, function, tags looked up, tags inserted) -/')
+    ct = []
+    for tag, rows in data.get('cache_tags', {}).items():
+        for name, lk, ins in rows:
+            ct.append(f'(.{tag}, {_ls(name)}, [' + ', '.join(_ls(x) for x in lk) + '], ['
+                      + ', '.join(_ls(x) for x in ins) + '])')
+    L.append('def cCacheTags : List (Backend × String × List String × List String) := [\n  '
+             + ',\n  '.join(ct) + ']')
     L.append('end Gen')
     return '\n'.join(L) + '\n'
 
@@ -1803,5 +1835,7 @@ def lean_ctables_stub(err):
          'def cLocalProducers : List (Backend × List String) := []',
          'def cRefTraces : List CMethod := []',
          'def cUncovered : List CUncovered := []',
+         'def cUncoveredText : List (Backend × String × String) := []',
+         'def cCacheTags : List (Backend × String × List String × List String) := []',
          'end Gen']
     return '\n'.join(L) + '\n'
